@@ -104,6 +104,17 @@ CLAIMS = {
          "delete_raggedarray checked on the implementation here, their model is C16's.",
          "Coq proof over executable models + in-Coq differential evaluation over the full operation matrix",
          "6.C11"),
+ 'C18': ("kernel-checked over Json.v, which follows _read_arraydescr / arrayinfotodtype / "
+         "_check_arrayinfoconsistency check by check on generic JSON values: if Array() succeeds then the "
+         "description is a dictionary with the required keys, a known numeric type, byte order, array "
+         "order, a shape that is a sequence of non-negative ints, and shape x itemsize EQUALS the data "
+         "length (C18_open_sound; contrapositive = every listed corruption is rejected, a size mismatch "
+         "by any amount included); darr.open() succeeds only where Array() does; delete/truncate by path "
+         "refuse with TypeError without running. Tie: ~550 single-field corruptions x array kinds incl. "
+         "ragged sub-arrays run against implementation and model (open result of Array, darr.open, "
+         "RaggedArray; by-path refusal with byte snapshots); key/type tables regenerated from source.",
+         "Coq proof over an executable model of descriptor validation + in-Coq differential evaluation over enumerated corruptions",
+         "6.C18"),
  'C14': ("fit_frames and Array.iterindices are re-translated from /repo's source into Gallina on "
          "every run and five theorems (exact frame count for all integers, remainder rule, "
          "rejection of every out-of-range parameter, tiling a[start:end] when step=chunklen) are "
